@@ -472,12 +472,26 @@ def _floordiv_neg(t, o):
 
 
 class SymFloat:
-    """A finite real (z3 Real) with an optional symbolic NaN flag ``nan`` (z3 Bool)."""
-    __slots__ = ('t', 'nan')
+    """A finite real with an optional symbolic NaN flag ``nan`` (z3 Bool).
 
-    def __init__(self, t, nan=None):
-        self.t = t
+    The value is ``k * r`` where ``r`` is a z3 Real term and ``k`` a concrete positive rational
+    pulled out of the term.  Scaling by a concrete constant only changes ``k``; sums, ratios,
+    comparisons and if-then-else of values with equal ``k`` work on the raw terms, so the analysis of
+    ``a * x`` for a concrete ``a`` builds the *same* z3 terms as the analysis of ``x`` (ratios cancel
+    exactly, comparisons hit the decision cache) and stays linear.  ``t`` is the materialised term."""
+    __slots__ = ('r', 'k', 'nan', '_t')
+
+    def __init__(self, t, nan=None, k=1):
+        self.r = t
+        self.k = k
         self.nan = nan
+        self._t = t if k == 1 else None
+
+    @property
+    def t(self):
+        if self._t is None:
+            self._t = _realval_frac(self.k) * self.r
+        return self._t
 
     # -- helpers
     @staticmethod
@@ -490,11 +504,33 @@ class SymFloat:
             return fa
         return z3.Or(fa, fb)
 
+    def _scaled(self, c):
+        """self * c for a concrete finite c."""
+        c = _frac(c)
+        if c == 0:
+            # 0 * finite = 0, 0 * NaN = NaN
+            return SymFloat(_realval(0), self.nan) if self.nan is not None else f64(0.0)
+        if c > 0:
+            return SymFloat(self.r, self.nan, self.k * c)
+        return SymFloat(-self.r, self.nan, self.k * (-c))
+
     def _arith(self, o, f, rev=False, opname=''):
         if isinstance(o, (str, list, tuple, dict)) or o is None:
             return NotImplemented
         if _nonfinite(o):
             return _nonfinite_arith(self, o, opname, rev)
+        if isinstance(o, (int, float, fractions.Fraction)) and not isinstance(o, bool):
+            if opname == 'mul':
+                return self._scaled(o)
+            if o == 0 and opname in ('add', 'sub'):
+                return (-self if rev else self) if opname == 'sub' else self
+        if isinstance(o, SymFloat):
+            nf = SymFloat._nanflag(self, o)
+            if opname == 'mul':
+                return SymFloat(self.r * o.r, nf, self.k * o.k)
+            if o.k == self.k:
+                a, b = self.r, o.r
+                return SymFloat(f(b, a) if rev else f(a, b), nf, self.k)
         if isinstance(o, (SymFloat, SymInt, SymBool, int, float, fractions.Fraction)):
             a, b = self.t, _zr(o)
             t = f(b, a) if rev else f(a, b)
@@ -520,13 +556,13 @@ class SymFloat:
         return self._arith(o, lambda a, b: a * b, True, 'mul')
 
     def __neg__(self):
-        return SymFloat(-self.t, self.nan)
+        return SymFloat(-self.r, self.nan, self.k)
 
     def __pos__(self):
         return self
 
     def __abs__(self):
-        return SymFloat(z3.If(self.t >= 0, self.t, -self.t), self.nan)
+        return SymFloat(z3.If(self.r >= 0, self.r, -self.r), self.nan, self.k)
 
     def __truediv__(self, o):
         return sym_div(self, o)
@@ -540,7 +576,12 @@ class SymFloat:
         if _nonfinite(o):
             return _nonfinite_cmp(self, o, f, ne)
         if isinstance(o, (SymFloat, SymInt, SymBool, int, float, fractions.Fraction)):
-            c = f(self.t, _zr(o))
+            if isinstance(o, SymFloat) and o.k == self.k:
+                c = f(self.r, o.r)            # k > 0: same order as the scaled values
+            elif isinstance(o, (int, float)) and not isinstance(o, bool) and o == 0:
+                c = f(self.r, _realval(0))
+            else:
+                c = f(self.t, _zr(o))
             nf = SymFloat._nanflag(self, o)
             if nf is not None:
                 c = z3.Or(nf, c) if ne else z3.And(z3.Not(nf), c)
@@ -579,12 +620,21 @@ class SymFloat:
         """int() truncates toward zero; the integer part is concretised by forking."""
         if self.nan is not None and bool(mk_bool(self.nan)):
             raise ValueError("cannot convert float NaN to integer")
-        if bool(mk_bool(self.t >= 0)):
+        if bool(mk_bool(self.r >= 0)):
             return cur().concretize(z3.ToInt(self.t))
         return -cur().concretize(z3.ToInt(-self.t))
 
     def __repr__(self):
-        return "SymFloat(%s%s)" % (self.t, '' if self.nan is None else ' nan?%s' % self.nan)
+        return "SymFloat(%s*%s%s)" % (self.k, self.r, '' if self.nan is None else ' nan?%s' % self.nan)
+
+
+def _realval_frac(k):
+    r = _RV.get(k)
+    if r is None:
+        r = z3.RealVal(str(fractions.Fraction(k)))
+        if len(_RV) < 4096:
+            _RV[k] = r
+    return r
 
 
 def _nonfinite_arith(s, o, opname, rev):
@@ -641,26 +691,34 @@ def sym_div(a, b):
     if isinstance(b, SymFloat):
         if b.nan is not None and bool(mk_bool(b.nan)):
             return f64('nan')
-        if bool(mk_bool(b.t == 0)):
+        if bool(mk_bool(b.r == 0)):
             # x / 0
             if isinstance(a, SymFloat):
                 if a.nan is not None and bool(mk_bool(a.nan)):
                     return f64('nan')
-                if bool(mk_bool(a.t == 0)):
+                if bool(mk_bool(a.r == 0)):
                     return f64('nan')
-                return f64('inf') if bool(mk_bool(a.t > 0)) else f64('-inf')
+                return f64('inf') if bool(mk_bool(a.r > 0)) else f64('-inf')
             return f64(conc_div(float(a), 0.0))
+        if isinstance(a, SymFloat):
+            return SymFloat(a.r / b.r, SymFloat._nanflag(a, b), fractions.Fraction(a.k) / fractions.Fraction(b.k))
+        if isinstance(a, (int, float, fractions.Fraction)):
+            if a == 0:
+                return SymFloat(_realval(0), b.nan) if b.nan is not None else f64(0.0)
+            return SymFloat(_zr(a) / b.t, b.nan)
         bt = b.t
     else:
         if b == 0:
             if isinstance(a, SymFloat):
                 if a.nan is not None and bool(mk_bool(a.nan)):
                     return f64('nan')
-                if bool(mk_bool(a.t == 0)):
+                if bool(mk_bool(a.r == 0)):
                     return f64('nan')
-                pos = bool(mk_bool(a.t > 0))
+                pos = bool(mk_bool(a.r > 0))
                 return f64('inf') if pos else f64('-inf')
             return f64(conc_div(float(a), float(b)))
+        if isinstance(a, SymFloat):
+            return a._scaled(1 / _frac(b))
         bt = _zr(b)
     at = _zr(a)
     nf = SymFloat._nanflag(a, b)
@@ -675,6 +733,8 @@ def ite(c, a, b):
         return mk_bool(z3.If(c.t, _zb(a), _zb(b)))
     if _nonfinite(a) or _nonfinite(b):
         return a if bool(c) else b
+    if isinstance(a, SymFloat) and isinstance(b, SymFloat) and a.k == b.k and a.nan is None and b.nan is None:
+        return SymFloat(z3.If(c.t, a.r, b.r), None, a.k)
     if isinstance(a, (SymFloat, float)) or isinstance(b, (SymFloat, float)):
         fa = a.nan if isinstance(a, SymFloat) else None
         fb = b.nan if isinstance(b, SymFloat) else None
@@ -1047,11 +1107,17 @@ class Explorer:
             _EXPLORER = None
         return self
 
-    def prove_all(self, items):
+    def prove_all(self, items, lemma=False):
         """One query for a conjunction of (condition, label) obligations; on failure the
-        first conjunct falsified by the counterexample is reported under its own label."""
+        first conjunct falsified by the counterexample is reported under its own label.
+        ``lemma``: once proved, the conjunction is added to the path condition (sound: it was
+        just shown to follow from it) so that later obligations can build on it."""
         self.path_reached_assert = True
         if self.pos < len(self.prefix):
+            if lemma:
+                for c, _ in items:
+                    if not isinstance(c, bool):
+                        self.solver.add(_zb(c))
             return True
         sym = []
         ok = True
@@ -1074,6 +1140,9 @@ class Explorer:
         if r == z3.unsat:
             self.solver.pop()
             self.n_discharged += len(sym)
+            if lemma:
+                for t, _ in sym:
+                    self.solver.add(t)
             return ok
         if r == z3.sat:
             m = self._m
